@@ -87,11 +87,24 @@ class Monitors:
         self.ctx = ctx
         self.path = None
         self.meta = {}
+        self.intended = None
 
     def mark(self, path):
         def h(ev):
             self.path = path
         return h
+
+    def binding(self, ev, name):
+        """The callee must receive each object under the documented parameter name, however it was passed."""
+        want, self.intended = self.intended, None
+        if want is None:
+            return
+        self.ctx.event('binding.' + name)
+        wrong = [k for k, v in want.items() if ev.args.get(k) is not v]
+        if wrong:
+            self.ctx.violation('binding', f'{name} called with positional arguments in the documented order '
+                               f'(incident_beam, scattered_beam, wavelength, gravity) receives other objects as '
+                               f'{wrong}', {'function': name, 'wrong': wrong, **self.meta}, function=name)
 
     def _common(self, ev):
         args = ev.args
@@ -105,6 +118,7 @@ class Monitors:
         name = 'scattering_angles_with_gravity'
         ctx = self.ctx
         path, self.path = self.path, None
+        self.binding(ev, name)
         case = {'function': name, 'path': path, **self.meta,
                 'args': {k: describe(v) for k, v in ev.args.items()}}
         if ev.exc is not None:
@@ -173,6 +187,7 @@ class Monitors:
         name = 'scattering_angle_in_yz_plane'
         ctx = self.ctx
         tilt = self.meta.get('tilt')
+        self.binding(ev, name)
         case = {'function': name, **self.meta, 'args': {k: describe(v) for k, v in ev.args.items()}}
         if ev.exc is not None:
             if isinstance(ev.exc, ValueError) and tilt is not None and tilt > 0:
@@ -218,12 +233,34 @@ class Monitors:
 
 
 # ------------------------------------------------------------- generator ---
+AXIS_KINDS = ('nexus', 'g-y beam-z', 'g-y beam+x', 'g-y beam oblique in xz', 'g any axis, beam any axis')
+
+
 def make_config(rng, ctx, tilt=None, gmag=None, axis_aligned=False):
     """One beamline configuration: returns numpy pieces (SI-free: lengths in unit u)."""
     gmag = GMAGS[rng.integers(0, len(GMAGS))] if gmag is None else gmag
     if axis_aligned:
+        # gravity exactly along a coordinate axis (NeXus: -y), the beam exactly perpendicular to it:
+        # along another axis in either sense, or oblique in the plane of the two other axes
+        kind = AXIS_KINDS[int(rng.integers(0, len(AXIS_KINDS)))] if axis_aligned is True else axis_aligned
         ghat = np.array([0.0, -1.0, 0.0])
-        h = np.array([0.0, 0.0, 1.0])
+        if kind == 'nexus':
+            h = np.array([0.0, 0.0, 1.0])
+        elif kind == 'g-y beam-z':
+            h = np.array([0.0, 0.0, -1.0])
+        elif kind == 'g-y beam+x':
+            h = np.array([1.0, 0.0, 0.0])
+        elif kind == 'g-y beam oblique in xz':
+            a = rng.uniform(0.1, 3.0) * (1 if rng.random() < 0.5 else -1)
+            h = np.array([np.sin(a), 0.0, np.cos(a)])
+            h /= np.linalg.norm(h)
+        else:  # any axis for gravity, any perpendicular axis for the beam
+            ax = int(rng.integers(0, 3))
+            ghat = np.zeros(3)
+            ghat[ax] = 1.0 if rng.random() < 0.5 else -1.0
+            h = np.zeros(3)
+            h[(ax + int(rng.integers(1, 3))) % 3] = 1.0 if rng.random() < 0.5 else -1.0
+        ctx.hit('axis-aligned: ' + kind)
     else:
         ghat = geom.random_unit(rng, 1)[0]
         h = geom.perpendicular_unit(rng, ghat[None, :])[0].astype(np.float64)
@@ -314,9 +351,23 @@ def tilt_sweep(rng, ctx, K, mon):
     return ('tilt_sweep', units[0], gmag)
 
 
-def run_case(rng, ctx, K, mon):
+DOCUMENTED_ORDER = ('incident_beam', 'scattered_beam', 'wavelength', 'gravity')
+
+
+def call(fn, args, mon, positional):
+    if positional:
+        mon.intended = dict(args)
+        return fn(*[args[k] for k in DOCUMENTED_ORDER])
+    return fn(**args)
+
+
+def run_case(rng, ctx, K, mon, i=0):
     axis = rng.random() < 0.15
-    cfg = make_config(rng, ctx, axis_aligned=axis)
+    if i < len(AXIS_KINDS):
+        axis = AXIS_KINDS[i]  # every axis-aligned kind in every shard
+    cfg = make_config(rng, ctx, axis_aligned=axis, tilt=0.0 if i < len(AXIS_KINDS) else None)
+    axis = bool(axis)
+    positional = i % 3 == 1
     layout = LAYOUTS[rng.integers(0, len(LAYOUTS))]
     f32 = rng.random() < 0.3
     units = (LEN_UNITS[rng.integers(0, 3)], WAV_UNITS[rng.integers(0, 3)], G_UNITS[rng.integers(0, 3)])
@@ -348,17 +399,17 @@ def run_case(rng, ctx, K, mon):
                 'axis_aligned': axis, 'per_pixel_incident': bool(per_pixel_b1)}
     mon.path = None
     try:
-        K.scattering_angles_with_gravity(**args)
+        call(K.scattering_angles_with_gravity, args, mon, positional)
     except Exception:  # noqa: BLE001 judged through PY_UNWIND
         pass
     ctx.hit(f'tilt:{cfg["tilt"]:g}')
     ctx.hit(f'|g|:{cfg["gmag"]:g}')
     sig = ('angles', f'tilt{cfg["tilt"]:g}', f'g{cfg["gmag"]:g}', 'f32' if f32 else 'f64', layout, units)
     # reflectometry variant on the same configuration
-    if rng.random() < 0.5:
+    if rng.random() < 0.5 or i < len(AXIS_KINDS):
         mon.meta = dict(mon.meta, family='yz')
         try:
-            K.scattering_angle_in_yz_plane(**args)
+            call(K.scattering_angle_in_yz_plane, args, mon, positional)
         except Exception:  # noqa: BLE001
             pass
     trivial = axis and layout == 'scalar' and cfg['tilt'] == 0 and units == ('m', 'm', 'm/s^2') and not f32
@@ -400,8 +451,10 @@ def plan(tier, seed):
 def requirements(tier):
     return {
         'events': {'scattering_angles_with_gravity': 200, 'path.generic': 50, 'path.orthogonal': 30,
-                   'scattering_angle_in_yz_plane': 10, 'yz.refused': 10, 'continuity': 50, 'limit': 10},
-        'forced': [f'tilt:{t:g}' for t in TILTS] + [f'|g|:{g:g}' for g in GMAGS] + ['detector above beam', 'per-pixel incident beams tilted up', 'per-pixel incident beams tilted down'],
+                   'scattering_angle_in_yz_plane': 10, 'yz.refused': 10,
+                   'binding.scattering_angles_with_gravity': 20, 'binding.scattering_angle_in_yz_plane': 10, 'continuity': 50, 'limit': 10},
+        'forced': [f'tilt:{t:g}' for t in TILTS] + [f'|g|:{g:g}' for g in GMAGS] + ['detector above beam', 'per-pixel incident beams tilted up', 'per-pixel incident beams tilted down']
+        + ['axis-aligned: ' + k for k in AXIS_KINDS],
     }
 
 
@@ -418,7 +471,7 @@ def run(shard, ctx):
     with tr:
         for i in range(shard['cases']):
             before = ctx.n_violations
-            sig, trivial, args = run_case(rng, ctx, K, mon)
+            sig, trivial, args = run_case(rng, ctx, K, mon, i)
             ctx.case(sig, trivial=trivial)
             if i < 2 or (ctx.n_violations > before and len(ctx.samples) < 6):
                 ctx.sample({'signature': sig, 'args': {k: describe(v) for k, v in args.items()}})
